@@ -382,13 +382,12 @@ def evaluate__round_half_to_even(self: XPathFunction, context: ta.ContextType = 
         raise self.error('XPTY0004', err)
     except (DecimalException, OverflowError):
         if isinstance(item, Decimal):
-            try:
+            prec = max(item.adjusted() + 2 + max(precision, 0), 1)
+            if prec <= 10000:
                 with localcontext() as ctx:
-                    digits = min(max(precision, 0), -item.as_tuple().exponent)  # type: ignore[operator]
-                    ctx.prec = max(item.adjusted() + 2 + digits, 1)
+                    ctx.prec = prec
                     return round(item, precision)  # type: ignore[arg-type]
-            except DecimalException:
-                return Decimal.from_float(round(float(item), precision))  # type: ignore[arg-type]
+            return Decimal.from_float(round(float(item), precision))  # type: ignore[arg-type]
         return round(item, precision)  # type: ignore[arg-type]
 
 
